@@ -222,6 +222,7 @@ def replay_outcome(report, N, K, fault_sel, die, out, rng, which, batch):
     faults = fault_of(fault_sel, K)
     items = make_items(K, faults, rng)
     assign = [w - 1 for w in out["assign"]]
+    sseed = rng.choice([None, rng.randrange(10**6), rng.randrange(10**6)])
     old_init = fakemp.Sched.__init__
 
     def init(self, *a, **k):
@@ -234,12 +235,13 @@ def replay_outcome(report, N, K, fault_sel, die, out, rng, which, batch):
             cms_args=dict(CMS_ARGS) if "cms" in which else None,
             hh_args=dict(HH_ARGS) if "hh" in which else None,
             hll_args=dict(HLL_ARGS) if "hll" in which else None, assign=assign,
+            sched_seed=sseed,
             tag="tag-%d" % len(which), expect=len(which))
     finally:
         fakemp.Sched.__init__ = old_init
         padd_cb.CTL = None
     scen = {"N": N, "K": K, "faults": {str(k): v for k, v in faults.items() if v != "ok"}, "die": die,
-            "assign": out["assign"], "sketches": sorted(which)}
+            "assign": out["assign"], "sketches": sorted(which), "scheduler_seed": sseed}
     report.count_action("replay:" + out["st"])
 
     def bad(msg):
